@@ -1,7 +1,10 @@
+import IcyVerif.Model.Font
 /-! Executable base64 (RFC 4648 standard alphabet, canonical padding required, trailing bits must be zero —
-    the behaviour of `base64::engine::general_purpose::STANDARD`) and decimal formatting/parsing.
-    Used ONLY by the driver to instantiate the abstract `Codec` of `Model/Font.lean` in correspondence runs;
-    the theorems keep the codec abstract (recorded assumption: decode ∘ encode = id). -/
+    the behaviour of `base64::engine::general_purpose::STANDARD`) and decimal formatting/parsing (`{}` of a `usize`,
+    `str::parse::<usize>`).  `stdCodec` instantiates the `Codec` of `Model/Font.lean` with them; the correspondence run
+    compares them with the real crates (`font b64 …`, every `dcs` / `dcsload` case), and `Lemmas/Base64.lean` PROVES the
+    codec laws for them (`decode_encode` for every byte string, `parse_fmt` for every `usize`), so that the DCS round
+    trip `dcs_rt_exact` needs no assumption about base64 or number formatting beyond that tie. -/
 namespace IcyVerif.B64
 
 def alphabet : List Nat := "ABCDEFGHIJKLMNOPQRSTUVWXYZabcdefghijklmnopqrstuvwxyz0123456789+/".toList.map Char.toNat
@@ -45,8 +48,13 @@ def decode : List Nat → Option (List Nat)
     | _, _, _, _ => none
   | _ => none
 
+/-- decimal digits, least significant first (`fuel` > number of digits) -/
+def digitsRev : Nat → Nat → List Nat
+  | 0, _ => []
+  | fuel + 1, n => (48 + n % 10) :: (if n / 10 = 0 then [] else digitsRev fuel (n / 10))
+
 /-- `format!("{n}")` -/
-def fmtNat (n : Nat) : List Nat := (toString n).toList.map Char.toNat
+def fmtNat (n : Nat) : List Nat := (digitsRev (n + 1) n).reverse
 
 /-- `str::parse::<usize>()`: optional `+`, at least one ASCII digit, value below 2^64 -/
 def parseUsize (s : List Nat) : Option Nat :=
@@ -56,5 +64,8 @@ def parseUsize (s : List Nat) : Option Nat :=
     let v := ds.foldl (fun acc c => acc * 10 + (c - 48)) 0
     if v < 18446744073709551616 then some v else none
   else none
+
+/-- the codec of the real DCS path: crate `base64` STANDARD engine, `{}` / `parse::<usize>` -/
+def stdCodec : IcyVerif.Font.Codec := { b64e := encode, b64d := decode, fmt := fmtNat, parse := parseUsize }
 
 end IcyVerif.B64
